@@ -221,8 +221,20 @@ def run_readback(ctx):
     from ..gen import BOUNDARY_CHARS
 
     edge = [c for c in BOUNDARY_CHARS if not 0xD800 <= ord(c) <= 0xDFFF]
-    for i in range(ctx.params["n"]):
-        t = tg.text(5, 1)[0] if i >= len(edge) * ctx.nshards or i % ctx.nshards != ctx.shard else "a" + edge[i // ctx.nshards] + "b"
+    # long values: everything that needs escaping sits in a short PREFIX, followed by a clean tail that carries the quoted output
+    # across the writer's buffer sizes (8 KiB, 16 KiB, 24 KiB) - and the mirror image, a clean head with the special part last
+    longs = []
+    if ctx.shard in (0, 1):
+        for pre in ("100%25 sure ", "1+1%3D2 ;", "é %41"):
+            for L in (8188, 16390):
+                longs.append(pre + "a" * L)
+                longs.append("a" * L + pre)
+        ctx.count("long_values", len(longs))
+    for i in range(-len(longs), ctx.params["n"]):
+        if i < 0:
+            t = longs[i]
+        else:
+            t = tg.text(5, 1)[0] if i >= len(edge) * ctx.nshards or i % ctx.nshards != ctx.shard else "a" + edge[i // ctx.nshards] + "b"
         if not t or has_surrogate(t):
             continue
         cls = text_classes(t)
@@ -233,7 +245,7 @@ def run_readback(ctx):
                 return
             u = guarded(fn)
             ctx.ev(None if triv else (entry, cls, "exc" if is_exc(u) else "ok"))
-            case = {"entry": entry, "text": t}
+            case = {"entry": entry, "text": t if len(t) < 300 else {"prefix": t[:24], "suffix": t[-24:], "len": len(t)}}
             if is_exc(u):
                 if u.type in ("ValueError", "TypeError"):
                     ctx.count("readback_rejected")
@@ -242,10 +254,11 @@ def run_readback(ctx):
                 return
             got = guarded(acc, u)
             if is_exc(got) or got != want:
-                ctx.fail("readback_mismatch", case, f"{entry}: supplied {t!r}, reads back {got!r}")
+                ctx.fail("readback_mismatch", case, f"{entry}: supplied {t[:60]!r}...({len(t)}), reads back {str(got)[:60]!r}..." if len(t) > 300 else f"{entry}: supplied {t!r}, reads back {got!r}")
                 return
             ctx.count("readback_ok")
-            check_views(ctx, u, dict(case, derived=True), None)
+            if len(t) < 2000:
+                check_views(ctx, u, dict(case, derived=True), None)
 
         rb("build_user", lambda: URL.build(scheme="http", host="h", user=t), lambda u: u.user, t)
         rb("build_password", lambda: URL.build(scheme="http", host="h", user="u", password=t), lambda u: u.password, t)
